@@ -505,10 +505,10 @@ class EstimationProviderLinked(EstimationProvider):
             dataset_clps, dataset_residual = [], []
             for index in range(self._data_provider.aligned_global_axis.size):
                 group_label = self._data_provider.get_aligned_group_label(index)
-                if dataset_label not in group_label:
+                group_datasets = self._data_provider.group_definitions[group_label]
+                if dataset_label not in group_datasets:
                     continue
 
-                group_datasets = self._data_provider.group_definitions[group_label]
                 dataset_index = group_datasets.index(dataset_label)
 
                 clp_labels = self._matrix_provider.get_matrix_container(dataset_label).clp_labels
